@@ -152,13 +152,14 @@ def edits(spec, seed=0):
             ("volume_id", [None, "Fedora 23 x86_64", "Völ \"q\""]), ("implant_md5", [None, "0123456789abcdef0123456789abcdef"]),
             ("checksums", [dict(CHK1), dict(CHK3)]), ("size", [1, 2 ** 32, 2 ** 33 + 1, 1000.5]),
             ("mtime", [0, 1451606400, 2 ** 33, 1556179200.75]),        # (floats: refused today; if ever accepted they must cycle)
-            ("bootable", [False, True]), ("subvariant", ["", "KDE"]), ("arch", ["x86_64", "src", "aarch64"])]
+            ("bootable", [False, True]), ("subvariant", ["", "KDE"]), ("arch", ["x86_64", "src", "aarch64"]),
+            ("path", [".work/Server/img.iso", "../shared/img.iso", "./img.iso"])]
     for i, s in enumerate(spec["images"]):
         for f, values in alph:
             for v in values:
                 if s[f] != v:
                     out.append(["img", i, f, v])
-        for dn, dc in ((1, 1), (2, 3), (3, 3)):
+        for dn, dc in ((1, 1), (2, 3), (3, 3), (0, 2), (0, 0)):
             if (s["disc_number"], s["disc_count"]) != (dn, dc):
                 out.append(["disc", i, dn, dc])
         for uni, av in ((False, []), (True, []), (True, ["Client"]), (True, ["Server", "Client"]), (True, ["Client", "Server"])):
